@@ -71,6 +71,8 @@ func (l *c20Ledger) CreateAccount(a common.Address) {
 	old := l.accts[a]
 	l.accts[a] = c20Acct{exist: true, balance: old.balance}
 }
+func (l *c20Ledger) Exist(a common.Address) bool      { return l.accts[a].exist }
+func (l *c20Ledger) GetCode(a common.Address) []byte  { return l.accts[a].code }
 func (l *c20Ledger) GetNonce(a common.Address) uint64 { return l.accts[a].nonce }
 func (l *c20Ledger) SetNonce(a common.Address, n uint64) {
 	x := l.accts[a]
@@ -170,5 +172,65 @@ func H_C20_failed_create_leaves_no_trace() {
 			verifAssert(c20Bal(before[c20Caller]).Cmp(value) >= 0, "create-only-with-sufficient-balance")
 		}
 		verifAssert(l.accts[c20Contract].nonce == 1 && l.accts[c20Contract].exist, "created-account-has-nonce-one")
+	}
+}
+
+// Call / UTXOCall / CallCode / StaticCall frames with an arbitrary frame body (stub_c20_run: burns any
+// part of the gas, may move funds, touch nonces and code, then succeeds, reverts or fails): never more
+// gas left than given; a frame that fails leaves every account exactly as it was - the value sent
+// along stays with the caller (for UTXOCall: the credit is taken back) -; a failure other than a
+// revert consumes all the gas, except the two refusals that happen before the frame starts.
+//verif:opt unwind=12 budget_s=900 split=24
+func H_C20_failed_call_leaves_no_trace() {
+	kind := verifCase(4)
+	depth := verifCase(2)
+	emptyCodeHash = common.Hash{0xEE}
+	l := &c20Ledger{accts: map[common.Address]c20Acct{}}
+	l.accts[c20Caller] = c20Acct{exist: true, balance: c20Amount(), nonce: uint64(verifNondetUint8())}
+	if verifNondetBool() {
+		l.accts[c20Contract] = c20Acct{exist: true, balance: c20Amount(), code: []byte{0x60}}
+	}
+	if verifNondetBool() {
+		l.accts[c20Other] = c20Acct{exist: true, balance: c20Amount()}
+	}
+	evm := &EVM{StateDB: l, Issued: make(chan bool, 1), depth: depth}
+	evm.Context.CanTransfer = CanTransfer
+	evm.Context.Transfer = Transfer
+	evm.Context.UnsafeTransfer = UnsafeTransfer
+	evm.interpreter = &Interpreter{}
+	value := c20Amount()
+	gas := verifNondetUint64()
+	before := l.copyAccts()
+	var (
+		left uint64
+		err  error
+	)
+	switch kind {
+	case 0:
+		_, left, _, err = evm.Call(AccountRef(c20Caller), c20Contract, common.EmptyAddress, nil, gas, value)
+	case 1:
+		_, left, _, err = evm.UTXOCall(AccountRef(c20Caller), c20Contract, common.EmptyAddress, nil, gas, value)
+	case 2:
+		_, left, _, err = evm.CallCode(AccountRef(c20Caller), c20Contract, nil, gas, value)
+	case 3:
+		_, left, _, err = evm.StaticCall(AccountRef(c20Caller), c20Contract, nil, gas)
+	}
+	verifReach("call-returned")
+	verifAssert(left <= gas, "call-never-more-gas-than-given")
+	if err != nil {
+		verifReach("call-failed")
+		verifAssert(c20Same(l.accts[c20Caller], before[c20Caller]), "failed-call-leaves-the-caller-untouched")
+		verifAssert(c20Same(l.accts[c20Contract], before[c20Contract]), "failed-call-leaves-the-callee-untouched")
+		verifAssert(c20Same(l.accts[c20Other], before[c20Other]), "failed-call-leaves-other-accounts-untouched")
+		if err != types.ExecutionReverted && err != ErrDepth && err != ErrInsufficientBalance {
+			verifAssert(left == 0, "failed-call-consumes-all-gas")
+		} else if err != types.ExecutionReverted {
+			verifAssert(left == gas, "refused-call-costs-no-gas")
+		}
+	} else {
+		verifReach("call-succeeded")
+		if kind == 0 || kind == 2 {
+			verifAssert(c20Bal(before[c20Caller]).Cmp(value) >= 0, "call-with-value-only-with-sufficient-balance")
+		}
 	}
 }
